@@ -182,6 +182,13 @@ func genXML(t *tape.Tape, o GenOpts) *World {
 		m.Item.XPath = "items/item"
 		w.SetTag("xml.array-like-attribute", fmt.Sprint(wrapField))
 	}
+	// ... or as text of the record element itself, next to its child elements (mixed content)
+	mixedField := -1
+	if attrField < 0 && wrapField < 0 && len(fn)-1 != sh.IntIdx && len(fn) > 2 && t.Chance("xml.mixed-content", 1, 6) {
+		mixedField = len(fn) - 1
+		m.Fields[mixedField] = "text()"
+		w.SetTag("xml.mixed-content-text", fmt.Sprint(mixedField))
+	}
 	decls, js, ext := GenDecls(t, m, declOptsOf(o))
 	addPoisonable(decls, m.IntField)
 	addJSPoisonable(t, w, decls, o, m.Fields[:len(fn)])
@@ -257,6 +264,9 @@ func genXML(t *tape.Tape, o GenOpts) *World {
 				if i == wrapField {
 					continue // goes onto the items' wrapper
 				}
+				if i == mixedField {
+					continue // written as text of the record element, behind its child elements
+				}
 				sb.WriteString("<" + el + ">" + elemText(v) + "</" + el + ">")
 			}
 		}
@@ -282,6 +292,9 @@ func genXML(t *tape.Tape, o GenOpts) *World {
 			sb.WriteString(`<note xmlns="uri://verif/p" xmlns:p="uri://verif/p">n</note>`)
 		case 4: // ... the other way round
 			sb.WriteString(`<note xmlns:p="uri://verif/p" xmlns="uri://verif/p">n</note>`)
+		}
+		if mixedField >= 0 {
+			sb.WriteString(xmlEsc.Replace(r.Vals[mixedField]))
 		}
 		sb.WriteString("</rec>")
 		return sb.String()
